@@ -10,14 +10,18 @@
     its keys are non-decreasing (`ordered_sorted`), and rows with equivalent keys keep their arrival
     order (`ordered_stable`);
   * all three are stated on `orderedPieces`, the very function `finish` prints;
+  * `order_by_parse_correct` — `parse_order_by` reads the key list as written: every key (an expression of the
+    proved grammar, or a position in the select list), in order, each with its own direction (`desc` after it or
+    not), commas optional — no key is dropped, merged or given another key's direction;
   * `repeated_key_irrelevant` — listing a key a second time, in whatever direction, never changes the
     comparison: the first mention decides.
   What is *not* a theorem here: that the buffered rows of an ORDER BY query are the rows of the same
   query without ORDER BY (walker-level simulation; covered by the CLI correspondence and the oracle
-  "permutation of the unordered run"), and the positional-key / unselected-key clauses, which are parser
-  facts checked by correspondence.
+  "permutation of the unordered run"), and that a key need not be selected (evaluated per row like a column;
+  checked by correspondence).
 -/
 import Fsel.Lemmas.Criteria
+import Fsel.Lemmas.ParseOrder
 import Fsel.Model.Walk
 
 namespace Fsel.C05
@@ -163,5 +167,44 @@ theorem repeated_key_irrelevant (today : Int) (k : KeyKind) (x y : Str) (d d' : 
       simp only [List.cons_append]
       rw [criteriaLeL_cons, criteriaLeL_cons]
       rw [ih D1 A1 B1 (by simpa using h1) (by simpa using h1a) (by simpa using h1b)]
+
+/-! ### the ORDER BY clause is read as written -/
+
+open ParseO ParseC ParseL in
+/-- **`parse_order_by` reads the key list as written** -/
+theorem order_by_parse_correct (fields : List Expr) (items : List OItem) (rest : List Lexem)
+    (hwf : ∀ it ∈ items, it.key.WF fields) (hsr : StopOr rest) (hos : OrderStop rest)
+    (hsep : ∀ (a b : OItem) (l1 l2 : List OItem), items = l1 ++ a :: b :: l2 → (∃ s tl x, a.key = .expr s tl x) → a.desc = false → b.comma = true) :
+    (parseOrderBy fields (.order :: .by_ :: (items.flatMap OItem.toks ++ rest))).1 =
+      .ok (items.map (·.key.tree), items.map (fun it => !it.desc)) ∧
+    (parseOrderBy fields (.order :: .by_ :: (items.flatMap OItem.toks ++ rest))).2.1 = rest := by
+  have h := order_items fields items [] [] rest hwf hsr hos hsep
+  simp only [List.nil_append] at h
+  simp only [parseOrderBy]
+  cases hi : iterate (orderStep fields) ([], []) (items.flatMap OItem.toks ++ rest) with
+  | mk x r' =>
+    rw [hi] at h
+    exact ⟨h.1, by simpa [Rest.lift] using h.2⟩
+
+open ParseO in
+/-- `order by 2, 1 desc, 2 desc` with the select list `path, size`: three keys (size asc, path desc, size desc) —
+    the repeat is kept as its own key with its own direction (and `repeated_key_irrelevant` says it cannot matter) -/
+example :
+    (parseOrderBy [.field false .Path, .field false .Size]
+      [.order, .by_, .raw ['2'], .comma, .raw ['1'], .desc, .comma, .raw ['2'], .desc, .limit, .raw ['3']]).1 =
+      .ok ([.field false .Size, .field false .Path, .field false .Size], [true, false, false]) := by
+  have h := order_by_parse_correct [.field false .Path, .field false .Size]
+    [⟨false, .pos ['2'] 2 (.field false .Size), false⟩, ⟨true, .pos ['1'] 1 (.field false .Path), true⟩, ⟨true, .pos ['2'] 2 (.field false .Size), true⟩]
+    [.limit, .raw ['3']]
+    (by intro it hit
+        simp only [List.mem_cons, List.mem_nil_iff, or_false] at hit
+        rcases hit with rfl | rfl | rfl <;> simp only [OKey.WF] <;> exact ⟨by decide, by decide, rfl⟩)
+    (by simp [ParseC.StopOr, ParseC.StopCond]) (by simp [OrderStop])
+    (by intro a b l1 l2 h1 ⟨s, tl, x, hx⟩ _
+        have : a ∈ [(⟨false, .pos ['2'] 2 (.field false .Size), false⟩ : OItem), ⟨true, .pos ['1'] 1 (.field false .Path), true⟩, ⟨true, .pos ['2'] 2 (.field false .Size), true⟩] := by
+          rw [h1]; simp
+        simp only [List.mem_cons, List.mem_nil_iff, or_false] at this
+        rcases this with rfl | rfl | rfl <;> cases hx)
+  exact h.1
 
 end Fsel.C05
